@@ -64,7 +64,7 @@ fn interesting(tree: &Value) -> (bool, bool, bool, bool) {
 
 pub fn run(ctx: &Ctx, replay: Option<&J>) -> CheckResult {
     let rule = "all supported types plus Empty/Corrupt/MsgNotSupported: (1) proptest recipes (as C01/C09 but never injecting NaN; +-inf allowed): strings with high Latin-1 \
-        and multi-byte characters around the capacities, lists filled to capacity, toggled options; (2) messages decoded from the decoder-side generators. oracle: \
+        and multi-byte characters around the capacities, lists filled to capacity, toggled options; (2) messages decoded from the decoder-side generators; (3) 1007/1008/1033/1029 built through the typed API (From<&str>) from text of every class incl. escape-, entity- and format-like tokens. oracle: \
         from_value(to_value(m)) == m through the harness' own self-describing value model (exact for f32/f64/char/u64), and for finite messages additionally through \
         serde_json::Value (tree, no text). non-trivial = message with a non-ASCII string, a None, a non-zero float or a list of >=15 elements; distinct = hash of the value tree"
         .to_string();
@@ -126,6 +126,75 @@ pub fn run(ctx: &Ctx, replay: Option<&J>) -> CheckResult {
             json!({"kind":"message-value","number":b.number,"ops":b.classes.iter().map(|c| c.name()).collect::<Vec<_>>(),"value":b.tree.to_json()})
         },
     );
+    // string-bearing messages constructed through the typed API (From<&str>), not through the deserialiser: text of
+    // every class incl. escape-/entity-/format-like tokens must survive serialise -> deserialise unchanged
+    {
+        use rtcm_rs::msg::{Msg1007T, Msg1008T, Msg1029T, Msg1033T};
+        use rtcm_rs::util::{ArrayString, Df88591String};
+        let n = ctx.n(60_000, 1_500_000);
+        let (sev, svs) = par_shards(16, |shard| {
+            let mut ev = Evidence::new();
+            ev.sample_cap = 1;
+            let mut vs: Vec<Violation> = Vec::new();
+            let mut rng = ctx.rng("c20-typed-strings", shard as u64);
+            for i in 0..n / 16 {
+                let mut txt = |rng: &mut crate::rng::Rng| -> String {
+                    if rng.below(2) == 0 {
+                        let cap = [7usize, 31, 40, 255][rng.below(4) as usize];
+                        crate::msggen::gen_token_text(rng, cap)
+                    } else {
+                        crate::msggen::gen_text(rng.next_u64())
+                    }
+                };
+                let d = |s: &str| Df88591String::<31>::from(s);
+                let m = match i % 4 {
+                    0 => Message::Msg1007(Msg1007T { reference_station_id: 5, antenna_descriptor_str: d(&txt(&mut rng)), antenna_setup_id: 1 }),
+                    1 => Message::Msg1008(Msg1008T { reference_station_id: 5, antenna_descriptor_str: d(&txt(&mut rng)), antenna_setup_id: 1, antenna_serial_number_str: d(&txt(&mut rng)) }),
+                    2 => Message::Msg1033(Msg1033T {
+                        reference_station_id: 9,
+                        antenna_descriptor_str: d(&txt(&mut rng)),
+                        antenna_setup_id: 0,
+                        antenna_serial_number_str: d(&txt(&mut rng)),
+                        receiver_type_descriptor_str: d(&txt(&mut rng)),
+                        receiver_firmware_version_str: d(&txt(&mut rng)),
+                        receiver_serial_number_str: d(&txt(&mut rng)),
+                    }),
+                    _ => Message::Msg1029(Msg1029T { reference_station_id: 1, modified_julian_day_number: 2, seconds_of_day_s: 3, text_str: ArrayString::<255>::from(txt(&mut rng).as_str()) }),
+                };
+                ev.evaluations += 1;
+                match oracle(&m) {
+                    Ok(_) => {
+                        ev.nontrivial_hash(hash_str(&format!("{:?}", m)));
+                        if i % 8 == 0 {
+                            ev.class("typed-string-message");
+                        }
+                        if ev.want_sample() && i % 4 == 1 {
+                            ev.sample(json!({"typed_string_message": format!("{:?}", m).chars().take(260).collect::<String>()}));
+                        }
+                    }
+                    Err((sig, msg)) => {
+                        if ctx.is_known(&sig) {
+                            ev.excluded_known += 1;
+                        } else if vs.is_empty() {
+                            // the frame form is a faithful replay vehicle for these messages (descriptor bytes survive the wire)
+                            let case = match crate::msggen::build(&m) {
+                                Ok(f) => json!({"kind":"frame","bytes":hex(&f)}),
+                                Err(_) => json!({"kind":"message-value","value":to_value(&m).map(|t| t.to_json()).unwrap_or(J::Null)}),
+                            };
+                            vs.push(Violation { property: "C20".into(), signature: sig, message: msg, case });
+                        }
+                    }
+                }
+            }
+            (ev, vs)
+        });
+        ev.merge(sev);
+        for x in svs {
+            if !vs.iter().any(|y| y.signature == x.signature) {
+                vs.push(x);
+            }
+        }
+    }
     // wire-less variants
     for m in [Message::Empty, Message::Corrupt, Message::MsgNotSupported(rtcm_rs::msg::message::MsgNotSupportedT { message_number: 4095 })] {
         ev.eval();
